@@ -123,3 +123,38 @@ def _(v):
     pp = v.call(prodpow, x, [[1, 0, 2], [-1, 1, 0]])
     v.prove_identity("prodpow_0", pp[0], x[0] * x[2] * x[2])
     v.prove_identity("prodpow_1", pp[1], x[1] / x[0])
+
+
+@harness("C07", "no_hidden_state_between_evaluations", functions=[EQ + ":NumSysLin.f", EQ + ":NumSysLog.f", EQ + ":_NumSys._get_A_ks", EQ + ":_NumSys._inits_and_eq_params"], kind="shape-bounded", div_mode="assume", samples=10)
+def _(v):
+    """the same formulation object evaluated twice with different constants / initial states must use the current ones"""
+    from chempy._eqsys import NumSysLin, NumSysLog
+    eqsys, subs, eqs, Ks = build(v, "ammonia")
+    K2 = [v.real("K_second%d" % i, lo=1e-3, hi=1e3) for i in range(len(eqs))]
+    y = [v.real("y_" + s, lo=1e-6, hi=10) for s in subs]
+    y0a = [v.real("y0a_" + s, lo=0, hi=10) for s in subs]
+    y0b = [v.real("y0b_" + s, lo=0, hi=10) for s in subs]
+    conc = dict(zip(subs, y))
+    B, keys = eqsys.composition_balance_vectors()
+    nr = len(eqs)
+    ns = NumSysLin(eqsys, backend=math)
+    v.call(ns.f, y, list(y0a) + list(Ks))
+    f2 = v.call(ns.f, y, list(y0b) + list(K2))
+    for i in range(nr):
+        v.prove_identity("lin.second_call_uses_current_constants_%d" % i, f2[i], spec_Q(eqs, conc, i) / K2[i] - 1)
+    for c in range(len(keys)):
+        v.prove_identity("lin.second_call_uses_current_initial_state_key%d" % keys[c], f2[nr + c] + 0.0, sum(B[c][j] * (y[j] - y0b[j]) for j in range(len(subs))) + 0.0)
+    be = v.backend()
+    nl = NumSysLog(eqsys, backend=be)
+    v.call(nl.f, y, list(y0a) + list(Ks))
+    g2 = v.call(nl.f, y, list(y0b) + list(K2))
+    A = eqsys.stoichs()
+    for i in range(nr):
+        v.prove_identity("log.second_call_uses_current_constants_%d" % i, g2[i], sum(int(A[i][j]) * y[j] for j in range(len(subs))) - be.log(K2[i]))
+    # constants taken from the system itself when no parameters are passed (new_eq_params=False): all ns initial concentrations are used
+    ns3 = NumSysLin(eqsys, backend=math, new_eq_params=False)
+    f3 = v.call(ns3.f, y, list(y0b))
+    for c in range(len(keys)):
+        v.prove_identity("lin.stored_constants_mode_uses_all_initial_concentrations_key%d" % keys[c], f3[nr + c] + 0.0, sum(B[c][j] * (y[j] - y0b[j]) for j in range(len(subs))) + 0.0)
+    for i in range(nr):
+        v.prove_identity("lin.stored_constants_mode_equil_%d" % i, f3[i], spec_Q(eqs, conc, i) / Ks[i] - 1)
